@@ -18,7 +18,7 @@ RULE = ('modules of 2-4 functions over the fragment (raise of builtin / custom e
         'random, time, os.system, calls of functions defined earlier; nested under if / for / while / with / try-except-else-finally), each with a random raises / safe / pure / has '
         'declaration set, callees with declarations and docstrings; enlarged-declaration variants (monotonicity); caller / stubbed-callee pairs; non-trivial = the function has a declaration')
 
-EXCS = ['ValueError', 'KeyError', 'LookupError', 'ZeroDivisionError', 'ArithmeticError', 'OSError', 'RuntimeError', 'TypeError', 'SystemExit', 'BaseException', 'MyError']
+EXCS = ['ValueError', 'KeyError', 'LookupError', 'ZeroDivisionError', 'ArithmeticError', 'OSError', 'RuntimeError', 'TypeError', 'SystemExit', 'BaseException', 'MyError', 'errs.ModError']     # the last two: classes of the module, the second under a dotted name
 MARKERS = ['stdout', 'stderr', 'io', 'global', 'import', 'read', 'write', 'random', 'time', 'syscall', 'network']
 LEAVES = ['raise', 'raise_call', 'assert', 'exit', 'pass', 'return', 'print', 'stdout', 'stderr', 'global', 'import', 'open_r', 'open_w', 'random', 'time', 'syscall', 'open_r2', 'open_a', 'syscall2']
 OWN_MARKER = {'print': 'stdout', 'stdout': 'stdout', 'stderr': 'stderr', 'global': 'global', 'import': 'import', 'open_r': 'read', 'open_w': 'write',
@@ -38,7 +38,7 @@ def gen_stmt(rnd, depth, callees):
     if k == 'for': return ['for', body(), body() if rnd.random() < .2 else []]
     if k == 'while': return ['while', body()]
     if k == 'with': return ['with', body()]
-    handlers = [[rnd.choice(EXCS[:-1] + [None]), body()] for _ in range(rnd.randint(0, 2))]
+    handlers = [[rnd.choice(EXCS[:-2] + [None]), body()] for _ in range(rnd.randint(0, 2))]
     if len(handlers) == 2 and handlers[0][0] is None: handlers.reverse()      # a bare except must be last
     if len(handlers) == 2 and handlers[0][0] is None: handlers = handlers[:1]
     fin = body() if (rnd.random() < .4 or not handlers) else []
@@ -53,10 +53,12 @@ def gen_func(rnd, name, callees):
     elif r < .65: decls.append(['pure'])
     if 'pure' not in [d[0] for d in decls] and rnd.random() < .55:
         decls.append(['has', rnd.sample(MARKERS, rnd.randint(0, 3))])
+        # the other names of a marker (print = stdout, socket = network, input = stdin, nonlocal = global)
+        if rnd.random() < .25: decls[-1][1] = [ALIAS_OF.get(x, x) if rnd.random() < .6 else x for x in decls[-1][1]] + ([rnd.choice(list(CANON))] if rnd.random() < .5 else [])
         if rnd.random() < .1: decls.append(['has', rnd.sample(MARKERS, rnd.randint(0, 2))])
     if rnd.random() < .15 and decls and decls[0][0] == 'raises': decls.append(['raises', rnd.sample(EXCS, 1)])
     rnd.shuffle(decls)
-    doc = rnd.sample(EXCS[:-1], rnd.randint(1, 2)) if rnd.random() < .2 else []
+    doc = rnd.sample(EXCS[:-2], rnd.randint(1, 2)) if rnd.random() < .2 else []
     return {'name': name, 'decls': decls, 'doc': doc, 'method': False, 'chain_first': len(decls) >= 2 and rnd.random() < .2,
             'body': [gen_stmt(rnd, 2, callees) for _ in range(rnd.randint(1, 3))]}
 
@@ -117,7 +119,7 @@ def r_func(f, out, prefix='', strip=False):
     out += ['', '']
 
 
-HEADER = ['import os', 'import sys', 'import random', 'import time', 'import subprocess', 'import deal', '', 'x = 1', 'G = 0', '', 'class MyError(Exception):', '    pass', '', '']
+HEADER = ['import os', 'import sys', 'import random', 'import time', 'import subprocess', 'import deal', '', 'x = 1', 'G = 0', '', 'class MyError(Exception):', '    pass', '', 'class errs:', '    class ModError(Exception):', '        pass', '', '']
 
 
 def render(m, strip=False):
@@ -233,14 +235,16 @@ def effects(body, funcs, level, linter_view):
 
 
 IMPLIES = {'stdout': ['stdout', 'io', 'print'], 'stderr': ['stderr', 'io'], 'read': ['read', 'io'], 'write': ['write', 'io'], 'network': ['network', 'io', 'socket'],
-           'stdin': ['stdin', 'io'], 'syscall': ['syscall', 'io'], 'global': ['global', 'nonlocal'], 'import': ['import'], 'random': ['random'], 'time': ['time']}
+           'stdin': ['stdin', 'io', 'input'], 'syscall': ['syscall', 'io'], 'global': ['global', 'nonlocal'], 'import': ['import'], 'random': ['random'], 'time': ['time']}
 
 
+CANON = {'print': 'stdout', 'socket': 'network', 'input': 'stdin', 'nonlocal': 'global'}
+ALIAS_OF = {v: k for k, v in CANON.items()}
 NON_IO = {'global', 'nonlocal', 'import', 'random', 'time'}
 def has_io(M): return any(x not in NON_IO for x in M)
 
 
-def covered_marker(m, M): return any(x in M for x in IMPLIES.get(m, [m]))
+def covered_marker(m, M): return any(x in M for x in IMPLIES.get(CANON.get(m, m), [m]))
 
 
 def has_return(body):
@@ -248,7 +252,7 @@ def has_return(body):
         if s[0] in ('return', 'raise', 'raise_call'): return True
         if s[0] in ('if', 'for') and (has_return(s[1]) or has_return(s[2])): return True
         if s[0] in ('while', 'with') and has_return(s[1]): return True
-        if s[0] == 'try' and (any(has_return(b) for _, b in s[2]) or has_return(s[3]) or has_return(s[4])): return True
+        if s[0] == 'try' and (has_return(s[1]) or any(has_return(b) for _, b in s[2]) or has_return(s[3]) or has_return(s[4])): return True      # a return inside a try body is a return
     return False
 
 
@@ -269,7 +273,7 @@ def reference(m, try_skip=False, first_has=False, io_child=False):
             else: M = [x for d in hd if d[0] == 'has' for x in d[1]]
             if not has_io(M) and not has_return(f['body']): ms.append('io')   # documented: a function without io must return something
             cov = (lambda e: has_io(M) if (io_child and e == 'io') else covered_marker(e, M))
-            ms += [e for e in effects(f['body'], funcs, 0, False) if not cov(e)]
+            ms += [CANON.get(e, e) for e in effects(f['body'], funcs, 0, False) if not cov(e)]
         res[f['name']] = {'raises': sorted(rs), 'markers': sorted(ms)}
     return res
 
@@ -362,7 +366,7 @@ def run(ctx, fr, model_available=True, mods=None):
             dist['stub_pairs'] += 1
             got = r['with_stub'].get('use', {'raises': [], 'markers': []})
             want_r = sorted({e for f in m['funcs'] for e in r['callee_stub'].get(f['name'], {}).get('raises', []) if e != 'AssertionError'})
-            want_m = sorted({x for f in m['funcs'] for x in r['callee_stub'].get(f['name'], {}).get('has', [])})
+            want_m = sorted({CANON.get(x, x) for f in m['funcs'] for x in r['callee_stub'].get(f['name'], {}).get('has', [])})      # charged under the canonical name of the marker
             if sorted(set(got['raises'])) != want_r:
                 fr.violations.append({'scenario': {'module': m, 'caller': render_caller(m)}, 'impl': {'with_stub': got, 'stub': r['callee_stub']},
                                       'what': f'a caller of stubbed functions is charged exceptions {sorted(set(got["raises"]))}; the stub entries are {want_r}', 'signature': None})
